@@ -5,8 +5,9 @@ suite on it and then every check with VERIF_REPO pointing at it; removes the cop
   variants:  unparse  - every module re-emitted by ast.unparse (comments, layout, line numbers change)
              rename   - unparse + every local variable of every function renamed (x -> x_v)
              flip     - unparse + every if/else (without elif) flipped: `if not c: B else: A`
+             helpers  - four hand-made 'extract a helper' refactorings (8-bit clamp, strict-mode test, output path, html escaping)
              shuffle  - unparse + top-level functions reordered, a `pass` at the start of every function, an unused helper per module
-usage: tools/harmless.py <unparse|rename> [check ids...]"""
+usage: tools/harmless.py <unparse|rename|flip|shuffle|helpers> [check ids...]"""
 import ast, os, shutil, subprocess, sys, tempfile
 
 variant = sys.argv[1]; ids = sys.argv[2:] or [f'C{i:02d}' for i in range(1, 20)]
@@ -36,6 +37,28 @@ try:
             elif isinstance(x, (ast.Import, ast.ImportFrom)):
                 for al in x.names: params.add(al.asname or al.name.split('.')[0])
         return stored - params - glob
+    if variant == 'helpers':
+        # hand-made "extract a helper" refactorings (each keeps the behaviour): applied textually where the pattern still matches
+        import re
+        EDITS = [
+            ('core/conversions.py', [('    r_8bit = max(0, min(255, round(r_srgb * 255)))\n    g_8bit = max(0, min(255, round(g_srgb * 255)))\n    b_8bit = max(0, min(255, round(b_srgb * 255)))\n',
+                                      '    r_8bit = _to_8bit(r_srgb)\n    g_8bit = _to_8bit(g_srgb)\n    b_8bit = _to_8bit(b_srgb)\n'),
+                                     ('def rgb_to_linear(channel', 'def _to_8bit(unit_value):\n    return max(0, min(255, round(unit_value * 255)))\n\n\ndef rgb_to_linear(channel')]),
+            ('core/optimisation.py', [('    final_contrast = calculate_contrast_ratio(tuned_rgb, bg_rgb)\n    success = final_contrast >= min_contrast\n    return tuned_rgb, success',
+                                       '    success = _meets(tuned_rgb, bg_rgb, min_contrast)\n    return tuned_rgb, success'),
+                                      ('def _strategy_strict(', 'def _meets(rgb, bg_rgb, minimum):\n    return calculate_contrast_ratio(rgb, bg_rgb) >= minimum\n\n\ndef _strategy_strict(')]),
+            ('cli/main.py', [('            output_filename = file_path.stem + "_cm" + file_path.suffix\n            output_path = file_path.parent / output_filename\n', '            output_path = _output_path(file_path)\n'),
+                             ('def serialize_prelude(prelude):', 'def _output_path(css_file):\n    new_name = css_file.stem + "_cm" + css_file.suffix\n    return css_file.parent / new_name\n\n\ndef serialize_prelude(prelude):')]),
+        ]
+        for rel, edits in EDITS:
+            pth = f'{tmp}/src/cm_colors/{rel}'; src = open(pth).read()
+            if all(src.count(o) == 1 for o, n_ in edits):
+                for o, n_ in edits: src = src.replace(o, n_)
+                open(pth, 'w').write(src)
+        pth = f'{tmp}/src/cm_colors/cli/html_report.py'; src = open(pth).read()
+        src2 = re.sub(r'html\.escape\(str\((pair\["\w+"\])\)\)', r'_esc(\1)', src)
+        if src2 != src:
+            src2 = src2.replace('def generate_report(', 'def _esc(value):\n    return html.escape(str(value))\n\n\ndef generate_report(', 1); open(pth, 'w').write(src2)
     for dp, dn, fns in os.walk(f'{tmp}/src/cm_colors'):
         for f in fns:
             if not f.endswith('.py'): continue
